@@ -33,7 +33,8 @@ DefaultFlow == "DEFAULT_FLOW"
 \* host state: m the machine (current flow and shared state), cur its flow's name, others the flows not current
 \* (name -> flow record), slots the host's saved states
 \* obs: the registered (observer, variable) pairs; async: a time-limited continue has been started and not finished
-Init == [m |-> S!Start, cur |-> DefaultFlow, others |-> <<>>, slots |-> <<>>, obs |-> <<>>, async |-> FALSE]
+\* handler: the host has installed an error handler
+Init == [m |-> S!Start, cur |-> DefaultFlow, others |-> <<>>, slots |-> <<>>, obs |-> <<>>, async |-> FALSE, handler |-> FALSE]
 
 FlowOf(m) == [th |-> m.th, out |-> m.out, ch |-> m.ch, st |-> m.st, safe |-> m.safe, last |-> m.last]
 WithFlow(m, f) == [m EXCEPT !.th = f.th, !.out = f.out, !.ch = f.ch, !.st = f.st, !.safe = f.safe, !.last = f.last]
@@ -92,8 +93,21 @@ RemoveFlow(h, name) ==
 Save(h, slot) == Ok([h EXCEPT !.slots = (slot :> [m |-> h.m, cur |-> h.cur, others |-> h.others]) @@ h.slots])
 Load(h, slot) ==
   IF slot \notin DOMAIN h.slots THEN Refused(h)        \* (the harness hands over an empty document)
-  ELSE LET d == h.slots[slot] IN Ok([h EXCEPT !.m = d.m, !.cur = d.cur, !.others = d.others])
+  \* (messages are not part of a saved state: the pending ones stay as they are)
+  ELSE LET d == h.slots[slot] IN Ok([h EXCEPT !.m = [d.m EXCEPT !.err = h.m.err, !.warns = h.m.warns], !.cur = d.cur, !.others = d.others])
 Reset(h) == Ok([h EXCEPT !.m = S!Start, !.cur = DefaultFlow, !.others = <<>>])
+
+\* ---------------------------------------------------------------- errors and warnings (C13)
+\* What a continue that has left its loop with machine m does with the messages: running out of content is an error
+\* raised now; with a handler installed every pending message is handed over, errors first, and forgotten, and the
+\* continue succeeds; without one an error makes the continue fail and stays (the story cannot continue until it is
+\* reset), a warning stays readable and the continue succeeds.
+SetHandler(h) == Ok([h EXCEPT !.handler = TRUE])
+Deliver(h, m) ==
+  LET m1 == L!OutOfContent(m)
+      pending == (IF m1.err # "" THEN <<[k |-> "E", c |-> m1.err]>> ELSE <<>>) \o [i \in 1..Len(m1.warns) |-> [k |-> "W", c |-> m1.warns[i]]] IN
+  IF h.handler THEN [m |-> [m1 EXCEPT !.err = "", !.warns = <<>>], res |-> "ok", msgs |-> pending]
+  ELSE [m |-> m1, res |-> IF m1.err # "" THEN "err" ELSE "ok", msgs |-> <<>>]
 
 \* ---------------------------------------------------------------- variable observers (C11)
 \* obs is a bag: registering the same observer for the same variable again means being told again
@@ -161,6 +175,7 @@ Seen(h) ==
       vis == IF CanContinue(h) THEN <<>> ELSE S!Visible(m) IN
   [ text |-> OS!CurrentText(m.out), tags |-> L!TagsOf(m.out), can |-> CanContinue(h),
     choices |-> [i \in 1..Len(vis) |-> [text |-> vis[i].text, tags |-> vis[i].tags]],
-    vars |-> m.vars, cur |-> h.cur, alive |-> Alive(h) ]
+    vars |-> m.vars, cur |-> h.cur, alive |-> Alive(h),
+    nerr |-> IF m.err # "" THEN 1 ELSE 0, warns |-> m.warns ]
 
 =============================================================================
